@@ -157,10 +157,16 @@ def run(rep):
     if bad:
         rep.inconc('fitting function(s) %s now read the region: "identical fitted values" no longer follows from the island filter alone' % bad)
     rep.end_kernel()
+    from checks import C08
+    C08.membership_kernel(rep, 'C11')
     rep.not_decided += ['equality of fitted values between the restricted and unrestricted run (follows from island identity + the scan; the optimiser is not encoded)']
 
 
 def replay(w):
+    if w['witness'].get('kind') == 'membership':
+        from checks import C08
+        bad, cls, detail = C08.replay_case(w['witness'])
+        return bad, '%s: %s' % (cls, detail)
     bad, cls, detail = replay_case(w['witness'])
     return bad, '%s: %s' % (cls, detail)
 
